@@ -32,7 +32,9 @@ class ExceptionContext(StatusContext):
 
     @property
     def context_id(self) -> str:
-        return f"exception_{self.exception_type}"
+        # One context per failed invocation: the exception type alone would merge
+        # failures of different invocations into a single pending valid condition
+        return f"exception_{self.invocation_id}_{self.exception_type}"
 
     def _to_json(self, app: "Pynenc") -> dict[str, Any]:
         """
